@@ -61,6 +61,9 @@ def ref(i):
 
 def feat(a, b, strand, typ, label, cite=None):
     q = {"label": [label]}
+    if typ == "CDS":
+        q["transl_except"] = ["(pos:5..7,aa:Sec)"]       # qualifiers that spell coordinates: they are the caller's text too
+        q["anticodon"] = ["(pos:2..4,aa:Ala,seq:tgc)"]
     if cite:
         q["citation"] = ["[%d]" % c for c in cite]
     return SeqFeature(FeatureLocation(a, b, strand=strand), type=typ, id=label, qualifiers=q)
